@@ -238,6 +238,27 @@ Verdict check_int(const J& r) {
         v.le(s3, 8 * tolp + 1e-9L * (E.a / 6.4e6L), "Next: X(x) and Y(y) do not coincide [m]");
         L dn = fabsl((L)n.first) + fabsl((L)n.second);
         L sd = fabsl(sinl(r.getd("dazi") * ref::DEG_L));
+        if (sd > 0.05L && v.st == Verdict::PASS) {
+          // minimality of Next: the candidates are the intersections near (+-h, +-h), h = half a circumference; locate each
+          // with Closest from that offset (witness), validate it by following both lines with the ODE reference, and
+          // require Next not to be farther than any of them (they differ by metres on an ellipsoid; S-C17-m4 returned
+          // the mirror intersection, up to 23 m farther)
+          L h = ref::PI_L * (E.a + E.b) / 2;
+          // (and those near (0, +-2h), (+-2h, 0): one line going once round and meeting the other again near the origin)
+          static const int WX[8] = {-1, -1, 1, 1, 0, 0, -2, 2}, WY[8] = {-1, 1, -1, 1, -2, 2, 0, 0};
+          for (int wi = 0; wi < 8; ++wi) { int sx = WX[wi], sy = WY[wi];
+            Intersect::Point p0w((double)(sx * h), (double)(sy * h));
+            Intersect::Point w = in.Closest(X2.lat, X2.lon, X2.azi, Y2.lat, Y2.lon, Y2.azi, p0w);
+            L dw = fabsl((L)w.first) + fabsl((L)w.second);
+            if (!(dw > 1e-3 * (double)E.a)) continue;
+            L tw = kdoc(0, a, f) * (2 + dw / (circ / 4)), s5, c5;
+            if (ode_sep(E, X2, Y2, w.first, w.second, s5, c5, 0.01L * tw) && s5 <= 8 * tw + 1e-9L) {
+              L sw = sqrtl(std::max<L>(0, 1 - c5 * c5));
+              if (sw > 0.05L) v.le(dn - dw, 1e-3L + 100 * (8 * tw + 1e-9L) / sw, "Next is farther from the origin than a valid intersection found by Closest from a lattice offset [m]");
+            }
+          }
+          v.tag("next-minimality-checked");
+        }
         if (sd > 1e-3L) { v.that(dn > 1e-3 * (double)E.a, "Next returned the intersection at the origin"); v.that(dn <= 2 * ref::PI_L * std::max(E.a, E.b) * (1 + 4 * fabsl(E.f) + 1e-9L), "Next is farther than the conjugate intersections (2 x half circumference)"); }
       }
     }
